@@ -182,6 +182,8 @@ int main(int argc, char** argv) {
     ops.push_back({ "percent_encode/decode", false, both("a:b", "a:b", false, false), [=](upa::url&, upa::url&) { (void)upa::percent_decode(upa::percent_encode(big + " \xC3\xA4%", upa::component_no_encode_set)); (void)upa::encode_url_component(u"\u00e4 b"); } });
     ops.push_back({ "url_from_file_path", false, both("a:b", "a:b", false, false), [=](upa::url&, upa::url&) { try { (void)upa::url_from_file_path("/" + big + "/x y", upa::file_path_format::posix); (void)upa::url_from_file_path("C:\\" + big, upa::file_path_format::windows); } catch (const upa::url_error&) {} } });
     ops.push_back({ "throwing ctor with string base", false, both("a:b", "a:b", false, false), [=](upa::url&, upa::url&) { try { upa::url u("../" + big, "http://h/" + big + "/"); (void)u; } catch (const upa::url_error&) {} } });
+    for (const std::string inp : { std::string("web+application:data"), std::string("view-source-xx:///p"), std::string(1100, 'a') + "\t:x", std::string("http://") + std::string(1100, 'h') + ".example/" })
+        ops.push_back({ "can_parse(" + inp.substr(0, 24) + ")", false, both("a:b", "a:b", false, false), [=](upa::url&, upa::url&) { (void)upa::url::can_parse(inp); (void)upa::url::can_parse(inp, "view-source-long-scheme://h/"); } });
     ops.push_back({ "can_parse", false, both("a:b", "a:b", false, false), [=](upa::url&, upa::url&) { (void)upa::url::can_parse("http://" + big + ".b\xC3\xBC.de/", "http://h/"); } });
     ops.push_back({ "standalone params", false, both("a:b", "a:b", false, false), [=](upa::url&, upa::url&) { upa::url_search_params p("b=2&a=1&" + big + "=3"); p.append("k", big); p.sort(); upa::url_search_params q(p); q = p; (void)q.to_string(); (void)p.get_all("a"); } });
 
